@@ -16,7 +16,7 @@ From Coq Require Import List NArith PArith Bool Arith FMapPositive Permutation.
 From OxiVerif Require Import DD.Table DD.TableProofs DD.Canon DD.Sem DD.Build DD.BuildProofs
   DD.Apply DD.ApplyProofs DD.ApplyEvalProofs DD.Quant DD.QuantSpecProofs DD.QuantLemmas
   DD.QuantProofs DD.RestrictProofs DD.SubstProofs DD.ApplyQuantProofs DD.QuantTopProofs
-  DD.QuantExamples.
+  DD.QuantHistory DD.QuantExamples.
 Import ListNotations.
 
 (** ** Entry points against the spec layer *)
@@ -139,6 +139,37 @@ Print Assumptions C04_qcacheok_extends.
 Theorem C04_qcacheok_empty : forall Sg s, QCacheOK ac_get Sg s [].
 Proof. exact qcacheok_empty. Qed.
 Print Assumptions C04_qcacheok_empty.
+
+(** a cleared cache has the invariant (gc and reordering clear the cache: C06) *)
+Theorem C04_qinv_init : forall C (cget : C -> N -> list ref -> option ref) cempty s,
+  (forall k a, cget cempty k a = None) -> BddOK s -> QInv C cget (mkQ C s cempty [] 0%N).
+Proof. exact qinv_init. Qed.
+Print Assumptions C04_qinv_init.
+
+(** histories: in every state satisfying the invariant (table, cache, registry
+    of substitution objects, id counter) every operation - the three
+    quantifiers, the fused forms, restrict, substitute with any registered
+    object, creation of a new object under the next id, clearing the cache -
+    runs to completion, re-establishes the invariant, only extends the table
+    and returns the spec function of its operands *)
+Theorem C04_qstep_ok : forall gt C cget cadd, lossy cget cadd ->
+  forall cempty, (forall k a, cget cempty k a = None) ->
+  forall st o, QInv C cget st -> op_pre C st o ->
+  exists st' res, qstep gt C cget cadd cempty st o = Some (st', res) /\ QInv C cget st' /\
+                  extends (q_s C st) (q_s C st') /\ op_post C st o st' res.
+Proof. exact qstep_ok. Qed.
+Print Assumptions C04_qstep_ok.
+
+(** ... hence whole histories: one substitution object applied any number of
+    times, several objects in any interleaving, quantifications and cache
+    clears in between *)
+Theorem C04_qrun_ok : forall gt C cget cadd, lossy cget cadd ->
+  forall cempty, (forall k a, cget cempty k a = None) ->
+  forall ops st, QInv C cget st -> ops_pre gt C cget cadd cempty st ops ->
+  exists st' rs, qrun gt C cget cadd cempty st ops = Some (st', rs) /\ QInv C cget st' /\
+                 extends (q_s C st) (q_s C st') /\ run_post gt C cget cadd cempty st ops rs.
+Proof. exact qrun_ok. Qed.
+Print Assumptions C04_qrun_ok.
 
 (** ** The recursive algorithms (any sufficient fuel, level-indexed semantics) *)
 
@@ -307,4 +338,10 @@ Print Assumptions C04_bcdd_unique_dispatch_spec.
 (** ** The hypotheses are satisfiable (concrete table, DD/QuantExamples.v) *)
 Definition C04_pin_hyps := ex_quant_hyps.
 Definition C04_pin_subst_hyps := ex_subst_hyps.
-Definition C04_pin_runs := (ex_quant_x0, ex_quant_var_above, ex_restrict, ex_apply_quant, ex_substitute).
+Definition C04_pin_run_quant := ex_quant_x0.
+Definition C04_pin_run_quant_above := ex_quant_var_above.
+Definition C04_pin_run_restrict := ex_restrict.
+Definition C04_pin_run_apply_quant := ex_apply_quant.
+Definition C04_pin_run_substitute := ex_substitute.
+Definition C04_pin_run_history := ex_history.
+Definition C04_pin_history_inv := ex_history_inv.
